@@ -110,6 +110,30 @@ def parse_errors(stderr, cmap, gen_lines):
     return fails, other
 
 
+def native_fallback(pid, seed, log_dir, reason):
+    """The changed code left the Verus subset (lost anchor / unsupported construct): no
+    obligation can be generated, so nothing is decided deductively. A failing history found by
+    the bounded native search against the REAL code is still a real violation and is reported
+    as one (with its input); finding none leaves the run undecided."""
+    import native_search
+    found = native_search.search(pid, [], seed, log_dir)
+    if not found.get("found"):
+        return None
+    key = hashlib.sha256(found["failing_input"].encode()).hexdigest()[:10]
+    rpath = os.path.join(VERIF, "replay", "%s-native-%s.json" % (pid, key))
+    os.makedirs(os.path.dirname(rpath), exist_ok=True)
+    m = re.search(r'violated="([^"]*)"', found["failing_input"])
+    tag = "native-history:" + re.sub(r"[^A-Za-z0-9_]+", "_", (m.group(1) if m else "postcondition"))[:60]
+    json.dump({
+        "property": pid, "engine": "native search (bounded; the deductive check could not be generated)",
+        "why_no_obligation": reason[:600],
+        "failed_obligations": [tag],
+        "native_search": found,
+        "how_to_replay": "bin/check --replay %s" % os.path.relpath(rpath, VERIF),
+    }, open(rpath, "w"), indent=1)
+    return ("native", [{"tag": tag}], rpath, "")
+
+
 def run_verus_property(pid, cfg, tier, seed, clock):
     vcfg = cfg["verus"]
     violations, known, undecided = [], [], []
@@ -126,6 +150,9 @@ def run_verus_property(pid, cfg, tier, seed, clock):
         print(r.stdout.strip(), flush=True)
         if r.returncode != 0:
             undecided.append("extraction failed (lost anchor or construct outside the subset): " + (r.stderr.strip() or r.stdout.strip())[-400:])
+            v = native_fallback(pid, seed, log_dir, undecided[-1])
+            if v:
+                violations.append(v)
             return violations, known, undecided, {"obligations": 0, "discharged": 0}, []
         report = json.load(open(os.path.join(work, "report.json")))
         rlimit = vcfg.get("rlimit_thorough", 30) if tier == "thorough" else vcfg.get("rlimit_quick", 10)
@@ -149,6 +176,9 @@ def run_verus_property(pid, cfg, tier, seed, clock):
         if other or vr.get("encountered-vir-error"):
             for o in other:
                 undecided.append("verus rejected the extracted text (not a proof failure): %s (gen.rs:%s)" % (o["message"], o["line"]))
+            v = native_fallback(pid, seed, log_dir, "; ".join(undecided[-3:]))
+            if v:
+                violations.append(v)
         breakdown = []
         for mt in j.get("times-ms", {}).get("smt", {}).get("smt-run-module-times", []):
             breakdown += mt.get("function-breakdown", [])
